@@ -553,7 +553,15 @@ def ob_spec64(ob, tier, seed):
     return _finish(ctx, t0, ob, [], [] if v in ("sat", "unsat") else ["spec64"], extra={"informational": True, "verdict_spec_m2": v, "model": model}, witness=True)
 
 
-RUNNERS = {"validate": ob_validate, "m1": ob_m1, "m2": ob_m2, "m4": ob_m4, "m5": ob_m5, "m6": ob_m6, "spec64": ob_spec64}
+def ob_writer(ob, tier, seed):
+    from . import writer
+    funcs, mir_s, mir_lines = dump_mir("akd")
+    res = writer.run_obligation(ob, tier, seed, funcs)
+    res.setdefault("extra", {})["akd_mir_dump_s"] = mir_s
+    return res
+
+
+RUNNERS = {"writer": ob_writer, "validate": ob_validate, "m1": ob_m1, "m2": ob_m2, "m4": ob_m4, "m5": ob_m5, "m6": ob_m6, "spec64": ob_spec64}
 
 
 def run_obligation(ob, tier, seed):
@@ -661,6 +669,15 @@ def replay_record(rec):
 
 def replay_file(path):
     rec = json.load(open(path))
+    if rec.get("kind") == "writer":
+        # a statement about the MIR of the writer itself: re-run the analysis on the current tree
+        prepare()
+        r = ob_writer({"id": rec["obligation"]}, "quick", 0)
+        print("replay %s %s: %s" % (rec["property"], rec["obligation"], r["verdict"] + " " + r.get("reason", "")))
+        if r["verdict"] == "fail":
+            print("VIOLATION property=%s replay=%s" % (rec["property"], path))
+            return 1
+        return 0 if r["verdict"] == "pass" else 2
     st = replay_record(rec)
     print("replay %s %s: %s (%s)" % (rec["property"], rec["obligation"], st["status"], st.get("detail", "")))
     if st["status"] == "reproduced":
